@@ -89,6 +89,7 @@ func C03(c *vlib.Ctx) {
 	c.Assume("exclusivity mode leaves settlement outcomes to C04 (an outcome the model cannot explain changes nothing in the register) and alarms when a dequeue returns a message the model says is leased-unexpired, not due, canceled, dead or settled, or with attempt != previous+1")
 	leaseHistories(c, "C03", leasecheck.ModeExclusivity, c.N(48, 900), 0.15)
 	c03Sequential(c)
+	leaseDirected(c, "C03")
 	c03Dispatcher(c)
 	c.CollectRaces()
 }
@@ -125,12 +126,32 @@ func c03Sequential(c *vlib.Ctx) {
 	}
 }
 
+// leaseDirected runs the deterministic lease scenarios on both backends; the
+// observations of the named property and of its neighbour (a stale call that
+// takes effect shows as C04, the double delivery that follows as C03) count.
+func leaseDirected(c *vlib.Ctx, prop string) {
+	for _, d := range storecheck.LeaseScenarios() {
+		for _, be := range []string{"memory", "sqlite"} {
+			storecheck.RunSequence(c, vlib.Derive(c.Seed, prop+"dir", d.Name, be), storecheck.RunCfg{
+				Backends: []string{be}, Store: d.Cfg, Script: d.Script, Label: prop + "/directed/" + be + "/" + d.Name,
+				Props: map[string]bool{prop: true}, Remap: func(o storecheck.Obs) storecheck.Obs {
+					if o.Prop == "C03" || o.Prop == "C04" {
+						o.Prop = prop
+					}
+					return o
+				}})
+			c.Count("directed_lease_scenarios", 1)
+		}
+	}
+}
+
 // C04: lease fencing.
 func C04(c *vlib.Ctx) {
 	c.Rule("same recorder and model as C03 in fencing mode with a stale-heavy workload: workers keep every lease id they ever saw and present them after expiry, re-lease, cancel, requeue, ack and dead-letter, in single and batch forms (duplicates inside a batch, blank and unknown ids) over direct Store calls, HTTP and gRPC; a listing of every message at each quiescent point is part of the history, so an effect of a stale call is observed even when its return code looks right. distinct_nontrivial = distinct (backend, transport, operation, outcome, duplicate-answer) classes.")
 	c.Assume("a 204/OK for a stale ack/nack through the Pull/Worker API is legal only if another call of the same class on the same lease id succeeded and was issued before this one returned (documented idempotent duplicate answer); never for extend, never on direct Store calls")
 	leaseHistories(c, "C04", leasecheck.ModeFencing, c.N(48, 900), 0.6)
 	c04Sequential(c)
+	leaseDirected(c, "C04")
 	c.CollectRaces()
 }
 
